@@ -380,9 +380,31 @@ func ruleMergeByName(c *core.Ctx, rule string, fn *ssa.Function, withMult bool) 
 			report("an existing name's slot becomes %s, expected old + that element's Value%s (%s)", val.Key(), map[bool]string{true: " x the multiplier", false: ""}[withMult], c.P.Pos(in.Pos()))
 		}
 	}
-	x.Run(x.NewState(fn, nil, nil))
+	mterms := x.Run(x.NewState(fn, nil, nil))
 	if !account(c, x, rule, fn) {
 		return
+	}
+	// no way round the list: a path that ends without the question "is there another element" ever having been asked
+	// of the list it was given skips all of it (if mult == 0 { return })
+	for _, prm := range fn.Params {
+		if !strings.HasSuffix(prm.Type().String(), ".Elements") || (fn.Signature.Recv() != nil && prm == fn.Params[0]) {
+			continue
+		}
+		lenKey := absint.NewTerm("len", absint.Sym{Name: prm.Name()}).Key()
+		for _, tm := range mterms {
+			if tm.Kind != "return" {
+				continue
+			}
+			asked := false
+			for k := range tm.State.PC {
+				if strings.HasPrefix(k, "ord(") && strings.Contains(k, lenKey) {
+					asked = true
+				}
+			}
+			if !asked {
+				report("a path returns without walking the list %s at all (%s): every element of it is dropped from the result, whatever it holds (%s)", prm.Name(), x.Valuation(tm.State), c.P.Pos(tm.Pos))
+			}
+		}
 	}
 	if effects["add"] == 0 || effects["accumulate"] == 0 {
 		report("the exploration saw %d Add and %d accumulate effects: both branches of merge-by-name must exist", effects["add"], effects["accumulate"])
